@@ -49,7 +49,24 @@ sa_u128_t __CPROVER_uninterpreted_umul(uint64_t a, uint64_t b);
     (SA_BR(a, b, 56, 56) && SA_BR(a, b, 56, 52) && SA_BR(a, b, 52, 56) && SA_BR(a, b, 52, 52) && \
      SA_BR(a, b, 57, 56) && SA_BR(a, b, 56, 53) && SA_BR(a, b, 53, 56) && SA_BR(a, b, 57, 52) && SA_BR(a, b, 53, 52))
 
-#if !defined(SECP256K1_INT128_STRUCT) && !defined(USE_FORCE_WIDEMUL_INT64)
+#if !defined(SECP256K1_INT128_STRUCT) && !defined(USE_FORCE_WIDEMUL_INT64) && defined(C05_UF_AXIOM_FORM)
+/* same contract in AXIOM form (used only by harness/C05/arith_fecong.c): the result is ALWAYS umul(a,b); exactness for the reduction
+ * constants is an implication about umul instead of a case split in the value.  Equivalent to the form below. */
+static SECP256K1_INLINE void secp256k1_u128_mul(secp256k1_uint128 *r, uint64_t a, uint64_t b)
+__CPROVER_requires(__CPROVER_w_ok(r, sizeof(*r)))
+__CPROVER_assigns(*r)
+__CPROVER_ensures(*r == __CPROVER_uninterpreted_umul(a, b))
+__CPROVER_ensures(SA_EXACT(a, b) ==> __CPROVER_uninterpreted_umul(a, b) == (sa_u128_t)a * b)
+__CPROVER_ensures(SA_UMUL_BOUNDS(a, b))
+;
+static SECP256K1_INLINE void secp256k1_u128_accum_mul(secp256k1_uint128 *r, uint64_t a, uint64_t b)
+__CPROVER_requires(__CPROVER_rw_ok(r, sizeof(*r)))
+__CPROVER_assigns(*r)
+__CPROVER_ensures(*r == __CPROVER_old(*r) + __CPROVER_uninterpreted_umul(a, b))
+__CPROVER_ensures(SA_EXACT(a, b) ==> __CPROVER_uninterpreted_umul(a, b) == (sa_u128_t)a * b)
+__CPROVER_ensures(SA_UMUL_BOUNDS(a, b))
+;
+#elif !defined(SECP256K1_INT128_STRUCT) && !defined(USE_FORCE_WIDEMUL_INT64)
 static SECP256K1_INLINE void secp256k1_u128_mul(secp256k1_uint128 *r, uint64_t a, uint64_t b)
 __CPROVER_requires(__CPROVER_w_ok(r, sizeof(*r)))
 __CPROVER_assigns(*r)
